@@ -179,8 +179,9 @@ def c01_optcheck(run, harnesses):
 
 
 PROPS["C01"] = dict(
-    modules=["Hpbf.Props.C01", "Hpbf.Props.C01Opt", "Hpbf.Props.C01Dse", "Hpbf.Props.ChainTotal", "Hpbf.Props.C01Loop", "Hpbf.Props.C01Rebuild", "Hpbf.Props.C01Rounds", "Hpbf.Props.ChainO1", "Hpbf.Props.C13Opt", "Hpbf.Props.C01Full", "Hpbf.Props.ChainOn", "Hpbf.Props.C01Fixed", "Hpbf.Props.ChainFinal"],
-    theorems=t("Hpbf.Chain", "all_levels_all_backends behEq_final onceOk_final irAgrees_final ir_final optimizeF_zero") +
+    modules=["Hpbf.Props.C01", "Hpbf.Props.C01Opt", "Hpbf.Props.C01Dse", "Hpbf.Props.ChainTotal", "Hpbf.Props.C01Loop", "Hpbf.Props.C01Rebuild", "Hpbf.Props.C01Rounds", "Hpbf.Props.ChainO1", "Hpbf.Props.C13Opt", "Hpbf.Props.C01Full", "Hpbf.Props.ChainOn", "Hpbf.Props.C01Fixed", "Hpbf.Props.ChainFinal", "Hpbf.Props.ChainFinal2"],
+    theorems=t("Hpbf.Chain", "all_levels_all_backends_final2 all_levels_exists_final2") +
+             t("Hpbf.Chain", "all_levels_all_backends behEq_final onceOk_final irAgrees_final ir_final optimizeF_zero") +
              t("Hpbf.OptProof", "optimizeF_level_le_one' optimizeF_preserves_all_levels'' optimizeF_onceOk_all_levels'' optimizeF_parse' optimizeOnceF_analIn' optimizeOnceF_analSound' dse_after_roundF' optimizeOnceF_later' optimizeF_no_panic' optimizeF_never_panics' optimizeF_total' optimizeF_canonL' optimizeF_reach' optimizeF_offsets'") +
              t("Hpbf.Chain", "anylevel_all_backends anylevel_exists level_le_one_all_backends optimize_zero optimizeCheck_level_le_one behEq_anylevel onceOk_anylevel irAgrees_anylevel ir_anylevel") +
              t("Hpbf.OptProof", "optimizeOnce_analIn_l1' optimizeOnce_analIn_g' f13_miscompile' f13_miscompile_bf' f13b_miscompile' f13_check_false' fixed_analysis_sound optimizeF_preserves_all_levels' optimizeF_onceOk_all_levels'") +
@@ -212,7 +213,7 @@ PROPS["C01"] = dict(
              dict(suite="levelcap", quick=400, thorough=20000, judge="const"),
              dict(suite="irecho", quick=300, thorough=5000, judge="tie")],
     corpus=["programs"], corpus_judge="program",
-    scope="FINAL HEADLINE (Props/ChainFinal, all_levels_all_backends): for every balanced source, width >= 1, EVERY optimization level, every oracle for which the repaired optimizer model succeeds (a fitting one always exists and none makes it panic: Props/C01Fixed), every environment, register count and fuse mode: canonical semantics, in-place interpreter, IR interpreter on the optimized IR and bytecode machine (both dispatch profiles) on translate of it have the same set of results, and the JIT's machine code returns the canonical result under JitRange — no per-run test, no generator hypothesis. ALL OPTIMISATION LEVELS ARE PROVED, WITHOUT ANY PER-RUN HYPOTHESIS, FOR THE REPAIRED OPTIMIZER (Props/C01Full): optimizeF_preserves_all_levels' — for every block in normal form (parser output is), width >= 1, level, oracle and environment, OptFix.optimizeF b level orders = .ok b' implies the same behaviour (forward, backward, prefix on events), and every loop marked `once` is entered with a non-zero condition (optimizeF_onceOk_all_levels'). OptFix.optimizeF = the exact port's optimizeOnce followed by the recomputation of the recorded clobbered sets (the repair of F13, implemented in /repo as the same post-pass; the optrun tie compares the Rust with optimizeF and distinguishes it from the unrepaired model in ~0.5% of the samples). The unrepaired optimizer is PROVED WRONG at level 2 by kernel-checked witnesses (f13_miscompile_bf', f13b_miscompile'), and the per-run test of C01Rounds is shown false there (f13_check_false'), i.e. the earlier conditional theorem was, correctly, silent. HEADLINE AT -O1 (Props/ChainO1, level1_all_backends): for every balanced source, width >= 1, environment and ANY oracle for which the optimizer model succeeds at level 1, canonical semantics, in-place interpreter, IR interpreter on the optimized IR, and the bytecode machine (both dispatch profiles) on translate of the optimized IR have the same set of results, and the JIT's machine code returns the canonical result under JitRange. OPTIMISATION LEVEL 1 IS PROVED (Props/C01Rebuild): for every IR block whose expressions are in normal form (parser output is), every width >= 1, every oracle of hash iteration orders and every environment, the exact optimizer model Opt.optimize b 1 returns a block with the same behaviour — forward, backward and prefix on the event trace (optimize_preserves_level1', optimize_parse_level1) — and every loop it marks `once` is entered with a non-zero condition (optimize_onceOk_level1'), which discharges the hypothesis of the bytecode/JIT chain at -O1. The proof covers the symbolic rebuild state (written/pending/reverse), Tarjan-ordered emission for every iteration order, clobbering, nested blocks with the parent chain, inlining, the wrapping if, loop analysis and loop motion; it FOUND two genuine miscompiles (F11, F12), both repaired. Towards levels 2 and 3 (Props/C01Rounds): the analysis a round records matches its output node by node, so dead store elimination never fails on it and its syntactic hypotheses hold (optimizeOnce_shapeOk', dse_total_after_round'); at_most_once/at_least_once facts hold; round 1 followed by DSE preserves behaviour given the one remaining clause ReadsFact (round1_dse_preserves'); optimize_preserves_of_steps' reduces every level to named per-step obligations. The rounds that USE the previous analysis are proved under the semantic hypothesis PrevAnalSound (laterRound_ok'), which has a PROVED-SOUND executable test: optimize_preserves_of_check' gives behaviour preservation at EVERY level whenever optimizeCheck N b level orders env = true; the test runs on every sampled program with the real iteration orders (optcheck stream). HEADLINE (Props/ChainTotal, level0_all_backends): for every balanced source, width >= 1 and environment the canonical semantics, the in-place interpreter, the IR interpreter, the bytecode machine in both dispatch profiles (p = translate (parse src), total) have the SAME set of results (ending kind + event trace), and the machine code of the JIT returns the canonical result (forward; full converse in limited mode) under explicit range hypotheses. Level 0 is FULL: for every balanced program, environment and width (w >= 1) the IR produced by "
+    scope="FINAL HEADLINE (Props/ChainFinal, all_levels_all_backends; ChainFinal2 strengthens the unlimited-mode JIT conjunct to an equivalence and adds all_levels_exists_final2: a fitting oracle exists, no oracle makes the optimizer panic): for every balanced source, width >= 1, EVERY optimization level, every oracle for which the repaired optimizer model succeeds (a fitting one always exists and none makes it panic: Props/C01Fixed), every environment, register count and fuse mode: canonical semantics, in-place interpreter, IR interpreter on the optimized IR and bytecode machine (both dispatch profiles) on translate of it have the same set of results, and the JIT's machine code returns the canonical result under JitRange — no per-run test, no generator hypothesis. ALL OPTIMISATION LEVELS ARE PROVED, WITHOUT ANY PER-RUN HYPOTHESIS, FOR THE REPAIRED OPTIMIZER (Props/C01Full): optimizeF_preserves_all_levels' — for every block in normal form (parser output is), width >= 1, level, oracle and environment, OptFix.optimizeF b level orders = .ok b' implies the same behaviour (forward, backward, prefix on events), and every loop marked `once` is entered with a non-zero condition (optimizeF_onceOk_all_levels'). OptFix.optimizeF = the exact port's optimizeOnce followed by the recomputation of the recorded clobbered sets (the repair of F13, implemented in /repo as the same post-pass; the optrun tie compares the Rust with optimizeF and distinguishes it from the unrepaired model in ~0.5% of the samples). The unrepaired optimizer is PROVED WRONG at level 2 by kernel-checked witnesses (f13_miscompile_bf', f13b_miscompile'), and the per-run test of C01Rounds is shown false there (f13_check_false'), i.e. the earlier conditional theorem was, correctly, silent. HEADLINE AT -O1 (Props/ChainO1, level1_all_backends): for every balanced source, width >= 1, environment and ANY oracle for which the optimizer model succeeds at level 1, canonical semantics, in-place interpreter, IR interpreter on the optimized IR, and the bytecode machine (both dispatch profiles) on translate of the optimized IR have the same set of results, and the JIT's machine code returns the canonical result under JitRange. OPTIMISATION LEVEL 1 IS PROVED (Props/C01Rebuild): for every IR block whose expressions are in normal form (parser output is), every width >= 1, every oracle of hash iteration orders and every environment, the exact optimizer model Opt.optimize b 1 returns a block with the same behaviour — forward, backward and prefix on the event trace (optimize_preserves_level1', optimize_parse_level1) — and every loop it marks `once` is entered with a non-zero condition (optimize_onceOk_level1'), which discharges the hypothesis of the bytecode/JIT chain at -O1. The proof covers the symbolic rebuild state (written/pending/reverse), Tarjan-ordered emission for every iteration order, clobbering, nested blocks with the parent chain, inlining, the wrapping if, loop analysis and loop motion; it FOUND two genuine miscompiles (F11, F12), both repaired. Towards levels 2 and 3 (Props/C01Rounds): the analysis a round records matches its output node by node, so dead store elimination never fails on it and its syntactic hypotheses hold (optimizeOnce_shapeOk', dse_total_after_round'); at_most_once/at_least_once facts hold; round 1 followed by DSE preserves behaviour given the one remaining clause ReadsFact (round1_dse_preserves'); optimize_preserves_of_steps' reduces every level to named per-step obligations. The rounds that USE the previous analysis are proved under the semantic hypothesis PrevAnalSound (laterRound_ok'), which has a PROVED-SOUND executable test: optimize_preserves_of_check' gives behaviour preservation at EVERY level whenever optimizeCheck N b level orders env = true; the test runs on every sampled program with the real iteration orders (optcheck stream). HEADLINE (Props/ChainTotal, level0_all_backends): for every balanced source, width >= 1 and environment the canonical semantics, the in-place interpreter, the IR interpreter, the bytecode machine in both dispatch profiles (p = translate (parse src), total) have the SAME set of results (ending kind + event trace), and the machine code of the JIT returns the canonical result (forward; full converse in limited mode) under explicit range hypotheses. Level 0 is FULL: for every balanced program, environment and width (w >= 1) the IR produced by "
           "Program::parse, run by the IR interpreter model, has exactly the canonical event sequence, terminates iff "
           "the canonical run does, and every intermediate output is a canonical prefix (parse_forward/backward/prefix); "
           "the folding of odd-step loops is justified for every width. Levels >= 1: partial, see not_proved. The "
@@ -444,8 +445,10 @@ def c07_limited(run, harnesses):
 
 
 PROPS["C05"] = dict(
-    modules=["Hpbf.Props.C05", "Hpbf.Props.Chain", "Hpbf.Props.ChainTotal", "Hpbf.Props.ChainO1", "Hpbf.Props.ChainOn", "Hpbf.Props.ChainFinal"],
-    theorems=t("Hpbf.Chain", "bc_never_returns_final bc_runs_forever_final bc_limited_interrupted_final bc_divergent_output_final jit_final_divergent") +
+    modules=["Hpbf.Props.C05", "Hpbf.Props.Chain", "Hpbf.Props.ChainTotal", "Hpbf.Props.ChainO1", "Hpbf.Props.ChainOn", "Hpbf.Props.ChainFinal", "Hpbf.Props.C03Conv", "Hpbf.Props.ChainFinal2"],
+    theorems=t("Hpbf.Chain", "jit_final_never_returns jit_final_converse") +
+             t("Hpbf.C03", "conv_run conv_diverges conv_progress") +
+             t("Hpbf.Chain", "bc_never_returns_final bc_runs_forever_final bc_limited_interrupted_final bc_divergent_output_final jit_final_divergent") +
              t("Hpbf.Chain", "bc_never_returns_anylevel bc_runs_forever_anylevel bc_limited_interrupted_anylevel bc_divergent_output_anylevel jit_anylevel_divergent") +
              t("Hpbf.Chain", "bc_never_returns_level1 bc_runs_forever_level1 bc_limited_interrupted_level1 bc_divergent_output_level1 jit_level1_divergent") +
              t("Hpbf.Chain", "bc_never_returns_unconditional bc_runs_forever_unconditional bc_limited_interrupted_unconditional bc_divergent_output_unconditional bc_terminates_unconditional jit_level0_divergent_unconditional") +
@@ -627,8 +630,11 @@ PROPS["C06"] = dict(
           "one edge suffices, the JIT's one-cell growth suffices, re-entering is a no-op), the allocation only grows, and "
           "every growth preserves all cell contents and the logical pointer (growth_preserves_cells, via C09).",
     not_proved="the in-place and IR interpreters access the tape only through Memory::read/write (C09 covers them); the "
-               "layout model is tied to the real Memory (size, offset) after threaded-interpreter runs, the JIT's probe "
-               "code only through guard-page runs; raw pointer arithmetic beyond the model is observed, not proved",
+               "layout model is tied to the real Memory (size, offset) after threaded-interpreter runs, the JIT's probe-"
+               "and-grow sequence is covered by the whole-program simulation of C03 (flow_mov_safe: the emitted probe, the call of "
+               "the growth routine and the pointer re-derivation implement Window.Lay.move in mode jitSafe on the x86 machine) "
+               "and additionally by guard-page runs; raw pointer arithmetic of the Rust interpreters beyond the model is "
+               "observed, not proved",
     rule="(1) bcrun: the real (size, offset) of the tape after threaded-interpreter runs equals the layout model's, for "
          "bytecode of generated programs incl. roaming ones (debug profile); (2) guard pages: the e2e comparison and far-"
          "roaming programs (walks of 1000-10000 cells, scans, revisits) on all back ends x levels with every tape buffer and "
@@ -660,8 +666,9 @@ PROPS["C10"] = dict(
 )
 
 PROPS["C13"] = dict(
-    modules=["Hpbf.Props.C11", "Hpbf.Props.C12", "Hpbf.Props.C02EmitTotal", "Hpbf.Props.Chain", "Hpbf.Props.C01Dse", "Hpbf.Props.C03Total", "Hpbf.Props.C02AllocTotal", "Hpbf.Props.C01Rounds", "Hpbf.Props.C13Opt", "Hpbf.Props.C01Fixed"],
-    theorems=t("Hpbf.OptProof", "optimizeF_no_panic' optimizeF_never_panics' optimizeF_total' optimizeF_canonL' dse_after_roundF'") +
+    modules=["Hpbf.Props.C11", "Hpbf.Props.C12", "Hpbf.Props.C02EmitTotal", "Hpbf.Props.Chain", "Hpbf.Props.C01Dse", "Hpbf.Props.C03Total", "Hpbf.Props.C02AllocTotal", "Hpbf.Props.C01Rounds", "Hpbf.Props.C13Opt", "Hpbf.Props.C01Fixed", "Hpbf.Props.ChainFinal2"],
+    theorems=t("Hpbf.Chain", "all_levels_exists_final2") +
+             t("Hpbf.OptProof", "optimizeF_no_panic' optimizeF_never_panics' optimizeF_total' optimizeF_canonL' dse_after_roundF'") +
              t("Hpbf.OptProof", "optimizeOnce_rdOk' optimizeOnce_analSound'") +
              t("Hpbf.OptTotal", "oracle_error_not_panic parse_canonL' optimize_canonL' optimizeOnce_safe' optimizeM_safe' optimize_no_panic' optimize_never_panics optimize_no_panic_parse optimize_total' optimize_total_parse compile_pipeline_no_panic") +
              t("Hpbf.OptProof", "optimizeOnce_shape' optimizeOnce_shapeOk' dse_total_after_round' optimizeOnce_atMost_atLeast analSound_after_round1' round1_dse_preserves' optimize_preserves_of_steps'") +
@@ -779,8 +786,10 @@ PROPS["C02"] = dict(
 
 
 PROPS["C03"] = dict(
-    modules=["Hpbf.Props.C03", "Hpbf.Props.C03Flow", "Hpbf.Props.C03Total", "Hpbf.Props.C11", "Hpbf.Props.C11Full", "Hpbf.Props.Chain", "Hpbf.Props.ChainTotal", "Hpbf.Props.ChainO1", "Hpbf.Props.ChainOn", "Hpbf.Props.ChainFinal"],
-    theorems=t("Hpbf.Chain", "jit_final_forward jit_final_unique jit_final_prefix jit_final_divergent jit_final_limited jit_final_limited_enough all_levels_all_backends") +
+    modules=["Hpbf.Props.C03", "Hpbf.Props.C03Flow", "Hpbf.Props.C03Total", "Hpbf.Props.C11", "Hpbf.Props.C11Full", "Hpbf.Props.Chain", "Hpbf.Props.ChainTotal", "Hpbf.Props.ChainO1", "Hpbf.Props.ChainOn", "Hpbf.Props.ChainFinal", "Hpbf.Props.C03Conv", "Hpbf.Props.ChainFinal2"],
+    theorems=t("Hpbf.Chain", "jit_final_converse jit_final_never_returns jit_final_same all_levels_all_backends_final2 all_levels_exists_final2 translate_window_final2 jitRange_window_of_length_final2 noNoop_translate") +
+             t("Hpbf.C03", "conv_code_nonempty conv_progress conv_ret_unique conv_run_more conv_steps_lt conv_steps conv_run conv_diverges conv_run_entry conv_diverges_entry") +
+             t("Hpbf.Chain", "jit_final_forward jit_final_unique jit_final_prefix jit_final_divergent jit_final_limited jit_final_limited_enough all_levels_all_backends") +
              t("Hpbf.Chain", "jit_anylevel_forward jit_anylevel_unique jit_anylevel_prefix jit_anylevel_divergent jit_anylevel_limited jit_anylevel_limited_enough anylevel_all_backends") +
              t("Hpbf.Chain", "jit_level1_forward jit_level1_unique jit_level1_prefix jit_level1_divergent jit_level1_limited jit_level1_limited_enough translate_window_optimized jitRange_window_of_length level1_all_backends") +
              t("Hpbf.Chain", "jitCode_spec jitHyps_of_range jit_level0_forward_unconditional jit_level0_unique_unconditional jit_level0_prefix_unconditional jit_level0_divergent_unconditional jit_level0_limited_unconditional jit_level0_limited_enough_unconditional jit_forward_fin jit_limited_fin level0_all_backends") +
@@ -801,7 +810,7 @@ PROPS["C03"] = dict(
              dict(suite="irgen", quick=1500, thorough=80000, judge="tie"),
              dict(suite="e2e", quick=1500, thorough=50000, thorough_seeds=3, judge="program")],
     corpus=["programs", "jitforms"], corpus_judge="program",
-    scope="AT EVERY OPTIMIZATION LEVEL (Props/ChainFinal): jit_final_* for translate b' 11 false with b' the repaired optimizer's output, under JitRange only. At -O1 TOO (Props/ChainO1): with b' the result of the optimizer model at level 1 for ANY oracle, jit_level1_*: as jit_level0_*_unconditional for translate b' 11 false; the window fields of JitRange follow from bytes*length(source) < 2^31 (jitRange_window_of_length). UNCONDITIONAL UP TO RANGES (Props/ChainTotal): for p := translate (parse src) 11 false the contract check and the success of compileX86 are theorems; jit_level0_*_unconditional take only JitRange (supported width, code < 2^31 bytes, window/shift/temps displacements inside i32, distinct runtime addresses, stack alignment, budget < 2^64, no allocation beyond 2^40 cells). END TO END AT LEVEL 0 (Props/Chain): source text -> parse -> translate -> compileX86 -> program-level x86 machine: under the bundled hypotheses of prog_run (JitHyps), a canonically terminating program makes the machine code return 1 (0 after an I/O stop) with exactly the canonical events, every return is that one (jit_level0_forward, jit_level0_unique), running code only ever has emitted a canonical prefix (jit_level0_prefix), and in limited mode the function always returns, with rax = 1 only for a complete canonical run (jit_level0_limited). WHOLE-PROGRAM simulation, proved on the exact Lean port of the code generator (JitGen.compileX86) and an "
+    scope="CONVERSE (Props/C03Conv): the machine code returns ONLY when the bytecode run has ended, with the matching verdict and the same events (conv_run), and a bytecode run that never ends is executed by machine code that never returns and never faults (conv_diverges) — every bytecode step costs at least one machine step (conv_progress; the self-looping `[]` needs the explicit 2-step argument). AT EVERY OPTIMIZATION LEVEL (Props/ChainFinal): jit_final_* for translate b' 11 false with b' the repaired optimizer's output, under JitRange only. At -O1 TOO (Props/ChainO1): with b' the result of the optimizer model at level 1 for ANY oracle, jit_level1_*: as jit_level0_*_unconditional for translate b' 11 false; the window fields of JitRange follow from bytes*length(source) < 2^31 (jitRange_window_of_length). UNCONDITIONAL UP TO RANGES (Props/ChainTotal): for p := translate (parse src) 11 false the contract check and the success of compileX86 are theorems; jit_level0_*_unconditional take only JitRange (supported width, code < 2^31 bytes, window/shift/temps displacements inside i32, distinct runtime addresses, stack alignment, budget < 2^64, no allocation beyond 2^40 cells). END TO END AT LEVEL 0 (Props/Chain): source text -> parse -> translate -> compileX86 -> program-level x86 machine: under the bundled hypotheses of prog_run (JitHyps), a canonically terminating program makes the machine code return 1 (0 after an I/O stop) with exactly the canonical events, every return is that one (jit_level0_forward, jit_level0_unique), running code only ever has emitted a canonical prefix (jit_level0_prefix), and in limited mode the function always returns, with rax = 1 only for a complete canonical run (jit_level0_limited). WHOLE-PROGRAM simulation, proved on the exact Lean port of the code generator (JitGen.compileX86) and an "
           "executable program-level x86 machine (X86Prog: byte-addressed code, flags, push/pop, rel8/rel32 jumps, the three "
           "runtime calls as atomic transitions that clobber every caller-saved register): prog_run — for every bytecode "
           "program that passes the verified contract checker (BcWf.check p 11) and compiles, from the entry state the "
